@@ -54,7 +54,10 @@ impl Obs {
 pub const FNV_INIT: u64 = 0xcbf29ce484222325;
 pub fn digest(mut h: u64, o: &Obs) -> u64 {
     for c in &o.0 {
-        h = (h ^ (*c as u64)).wrapping_mul(0x100000001b3);
+        // in a digest every panic is the same cell: which site / message it was is compared line by line only
+        // (a reworded assertion must not use up the localisation budget of a block run)
+        let c = if *c <= -100 { -100 } else { *c };
+        h = (h ^ (c as u64)).wrapping_mul(0x100000001b3);
     }
     h.wrapping_mul(31).wrapping_add(7)
 }
